@@ -14,16 +14,17 @@ mod proofs {
     fn verbatim_only_if_identical() {
         let k: [u8; 4] = kani::any();
         kani::assume(k[0] < 8 && k[1] < 8 && k[2] < 8 && k[3] < 8);
-        let (n, m): (usize, usize) = (kani::any(), kani::any());
-        kani::assume(n <= 2 && m <= 2);
         let a = [ch(k[0]), ch(k[1])];
         let b = [ch(k[2]), ch(k[3])];
-        let cleaned: String = unsafe { std::str::from_utf8_unchecked(&a[..n]) }.to_string(); // ASCII by construction
-        let requested: &str = unsafe { std::str::from_utf8_unchecked(&b[..m]) };
-        let same = n == m && (n < 1 || a[0] == b[0]) && (n < 2 || a[1] == b[1]);
-        kani::cover!(same && n == 2, "vacuity: identical two-character names");
-        kani::cover!(!same && n == m && a[0].to_ascii_lowercase() == b[0].to_ascii_lowercase(), "vacuity: names differing in case only");
+        let cleaned: String = unsafe { String::from_utf8_unchecked(vec![a[0], a[1]]) }; // ASCII by construction
+        let requested: &str = unsafe { std::str::from_utf8_unchecked(&b) };
+        let same = a[0] == b[0] && a[1] == b[1];
+        kani::cover!(same, "vacuity: identical names");
+        kani::cover!(!same && a[0].to_ascii_lowercase() == b[0].to_ascii_lowercase() && a[1] == b[1], "vacuity: names differing in case only");
         assert!(needs_digest(&cleaned, requested) == !same, "[verbatim-only-if-identical] a directory name without digest is used only for a name that cleaning left byte-identical (else two table names could share a directory)");
+        // a cleaned name that lost a character is never used verbatim
+        let shorter: String = unsafe { String::from_utf8_unchecked(vec![a[0]]) };
+        assert!(needs_digest(&shorter, requested), "[shorter-needs-digest] a name that cleaning shortened carries the digest");
     }
     // the cleaning steps after lower-casing leave only file-system safe characters and no leading '.' or '-'
     #[kani::proof]
@@ -31,16 +32,15 @@ mod proofs {
     fn cleaned_name_is_safe() {
         let k: [u8; 2] = kani::any();
         kani::assume(k[0] < 8 && k[1] < 8);
-        let n: usize = kani::any();
-        kani::assume(n <= 2);
-        let a = [ch(k[0]), ch(k[1])];
-        let c = clean_after_lowercase(unsafe { std::str::from_utf8_unchecked(&a[..n]) }.to_string());
+        let c = clean_after_lowercase(unsafe { String::from_utf8_unchecked(vec![ch(k[0]), ch(k[1])]) });
         let cb = c.as_bytes();
-        for i in 0..cb.len() {
-            let x = cb[i];
-            assert!(x.is_ascii_alphanumeric() || x == b'_' || x == b'-' || x == b'.', "[safe-characters] no path separator or other unsafe character survives cleaning");
+        assert!(cb.len() <= 2, "[no-growth] cleaning never adds characters");
+        if cb.len() >= 1 {
+            assert!(cb[0].is_ascii_alphanumeric() || cb[0] == b'_', "[no-dot-prefix] the cleaned name starts with a letter, digit or '_' (no '..', no clash with digest-carrying names)");
         }
-        assert!(cb.len() == 0 || (cb[0] != b'.' && cb[0] != b'-'), "[no-dot-prefix] the cleaned name cannot start with '.' or '-' (no '..', no clash with digest-carrying names)");
+        if cb.len() == 2 {
+            assert!(cb[1].is_ascii_alphanumeric() || cb[1] == b'_' || cb[1] == b'-' || cb[1] == b'.', "[safe-characters] no path separator or other unsafe character survives cleaning");
+        }
     }
 
     #[kani::proof]
